@@ -359,6 +359,9 @@ package hclsyntax
 // verif:func (Expression).Range
 //@ trusted
 //@ pure
+// verif:func (Expression).StartRange
+//@ trusted
+//@ pure
 // The short-circuit hook and the operator implementation are given the unmarked operands; they
 // cannot see or change the mark sets.
 // verif:func (Operation).ShortCircuit.call
@@ -503,3 +506,10 @@ package hclsyntax
 //@ nosafety
 //@ ensures keymarks: len(ret1) > 0 || (forall j int, k iface :: { marked(exprVal(old(e.Items[j].KeyExpr), ctx), k) } 0 <= j && j < old(len(e.Items)) && marked(exprVal(old(e.Items[j].KeyExpr), ctx), k) ==> marked(ret0, k))
 //@ loop 1 invariant len(diags) > 0 || (forall j int, k iface :: { marked(exprVal(e.Items[j].KeyExpr, ctx), k) } 0 <= j && j <= rangeindex && marked(exprVal(e.Items[j].KeyExpr, ctx), k) ==> (exists i int :: { marks[i] } 0 <= i && i < len(marks) && has(marks[i], k)))
+
+// Function calls with an expanding final argument (f(xs...)): when the expanded value is not known the
+// call cannot be made and the result is unknown - it must still carry the marks of the expanded value
+// (unless a diagnostic is reported).
+// verif:func (*FunctionCallExpr).Value
+//@ nosafety
+//@ ensures expand: old(e.ExpandFinal) && old(len(e.Args)) >= 1 && !isKnownVal(exprVal(old(e.Args[len(e.Args) - 1]), ctx)) ==> len(ret1) > 0 || (forall k iface :: { marked(ret0, k) } marked(exprVal(old(e.Args[len(e.Args) - 1]), ctx), k) ==> marked(ret0, k))
